@@ -135,28 +135,46 @@ Example C19_guard_satisfiable :
 Proof. split; [repeat split|]. repeat split; vm_compute; reflexivity. Qed.
 
 (* ---------------------------------------------------------------------------------------------
-   Laying the same tree object out again (Algo/Plot.v: a later call reads back the `shift` the
-   earlier calls left on the nodes).  `rt_again ps p t`: the coordinates after calling
-   reingold_tilford on the fresh tree t with the parameter sets ps (any rationals, in this order)
-   and then with p; the structure of the tree does not change in between. *)
-Theorem C19_rerun_fresh : forall p t, rt_again [] p t = reingold_tilford p t.
-Proof. exact rt_again_nil. Qed.
-Print Assumptions C19_rerun_fresh.
+   Laying the same tree object out again.  _first_pass reads the `shift` attribute back from the
+   nodes (Algo/Plot.v `fpd`); since commit 6d1d6cb (F10) reingold_tilford resets it on every node
+   first (`reset_d`), so a call is history-free.
+   `rt_again ps p t`: the coordinates after calling reingold_tilford on the fresh tree t with the
+   parameter sets ps (any rationals, in this order) and then with p. *)
+Theorem C19_rerun_is_fresh : forall ps p t, rt_again ps p t = reingold_tilford p t.
+Proof. exact rt_again_eq. Qed.
+Print Assumptions C19_rerun_is_fresh.
 
-(* shape, levels, parent midpoint, sibling separation and non-negative x hold after any number of
-   earlier layouts *)
-Theorem C19_rerun : forall eps ps p t, 0 <= eps -> params_pos p ->
-  prop_C19_but_cousins eps p t (rt_again ps p t) = true.
-Proof. exact again_but_cousins. Qed.
+(* hence every clause that holds on a fresh tree holds after any number of earlier layouts *)
+Corollary C19_rerun : forall eps ps p t, 0 <= eps -> params_pos p ->
+  prop_C19_but_cousins eps p t (rt_again ps p t) = true
+  /\ (cousin_guard2 t = true -> prop_C19 eps p t (rt_again ps p t) = true).
+Proof.
+  intros eps ps p t He Hp. rewrite C19_rerun_is_fresh. split; [apply rt_but_cousins; assumption|].
+  intros HG. unfold prop_C19. rewrite rt_but_cousins, rt_cousins_partial2 by assumption. reflexivity.
+Qed.
 Print Assumptions C19_rerun.
 
-(* Not so when the structure changes between two layouts (proposed finding K4-C19): lay out
-   r(a(a1, a2), b(b1)) with unit separations (b gets shift 1/2), append a fresh leaf c to r, lay
-   out again: b keeps its stale shift and lands at x = 2, c starts without one and lands at
-   x = 5/2, only 1/2 from its left sibling. *)
+(* structural changes between two layouts (children reversed, a leaf inserted, a child removed:
+   `edit`): after any history `steps` of edits and layouts starting from any state `st`, the
+   coordinates written by the last call are exactly the fresh layout of the tree as it is then *)
+Theorem C19_relayout_is_fresh : forall st steps e p,
+  snd (run_steps st (steps ++ [(e, p)]))
+  = reingold_tilford p (tree_of_d (apply_edit e (fst (run_steps st steps)))).
+Proof. exact relayout_is_fresh. Qed.
+Print Assumptions C19_relayout_is_fresh.
+
+(* a call does not change the structure, so the shape in the statement above is determined by
+   the edits alone *)
+Theorem C19_layout_keeps_shape : forall p d, tree_of_d (fst (layout p d)) = tree_of_d d.
+Proof. exact tree_of_layout. Qed.
+Print Assumptions C19_layout_keeps_shape.
+
+(* regression for F10: lay out r(a(a1, a2), b(b1)) with unit separations, append a fresh leaf c
+   to r, lay out again.  Before the fix b kept its stale shift 1/2 and c landed 1/2 from b; now
+   the second layout is the fresh one of the 7-node tree and satisfies the whole property. *)
 Definition k4_tree : tree := nd [nd [leaf; leaf]; nd [leaf]].
-Example C19_rerun_after_insert_refuted :
+Example C19_rerun_after_insert_ok :
   let st := run_steps (layout unit_params (zero_d k4_tree)) [(EAdd [] 2, unit_params)] in
-  siblings_ok 0 1 (snd st) = false /\ midpoint_ok 0 (snd st) = true /\ nonneg_ok 0 (snd st) = true
+  prop_C19 0 unit_params (tree_of_d (fst st)) (snd st) = true
   /\ tsize (tree_of_d (fst st)) = 7%nat.
-Proof. repeat split; vm_compute; reflexivity. Qed.
+Proof. split; vm_compute; reflexivity. Qed.
